@@ -3,7 +3,7 @@ CONSTANTS
   MaxNC = 6
   MaxNS = 2
   Widths <- W7
-  Props <- P3
+  Props <- P4
   SlewMode = "all"
   Variant = "fixed"
 INVARIANT Flag
